@@ -1,4 +1,6 @@
 import ConduitModel.Generated.Lifecycle
+import ConduitModel.Generated.OpenPhase
+import ConduitModel.Model.LifecycleOpen
 import ConduitModel.Model.Lifecycle
 
 /-!
@@ -58,5 +60,44 @@ theorem stopAndWait_order : v1_stopAndWait_order = ["s.Stop", "s.WaitPipeline", 
 /-- WaitPipeline: map lookup → tomb Wait, else the terminalErrors fallback (model `waitBegin`). -/
 theorem wait_order : v1_wait_order = ["runningPipelines.Get", "t.Wait", "terminalErrors.Get"] ∧ v2_wait_order = v1_wait_order := by
   decide
+
+/-- v2 runPipeline, worker i fails to open: the rollback loop closes EVERY element of the slice that
+collects the opened workers (`opened`, filled by `opened = append(opened, w)` right after a successful
+Open), last to first, then the shared sink, then returns the error — `Shape.lo = 0` of
+`Model/LifecycleOpen.lean`. -/
+theorem open_rollback_v2 :
+    Conduit.Generated.OpenPhase.v2RollbackLoop =
+      ["j := len(opened) - 1", "j >= 0", "j--", "_ = opened[j].Close(context.Background())"] ∧
+    Conduit.Generated.OpenPhase.v2RollbackCollection = "opened" ∧
+    Conduit.Generated.OpenPhase.v2AfterOpenOk = ["opened = append(opened, w)"] ∧
+    Conduit.Generated.OpenPhase.v2RollbackAfterLoop.head? = some "_ = rp.sink.Close(context.Background())" ∧
+    Conduit.Generated.OpenPhase.v2RollbackLo = 0 := by decide
+
+/-- v1: every connector node opens its own plugin in `Run` and registers the teardown with `defer`
+immediately after the Open succeeded (only the error check lies in between), so a run that ends — for
+whatever reason, including another node's failed Open — releases every plugin it opened. -/
+theorem open_then_defer_v1 : Conduit.Generated.OpenPhase.v1NodeOpenThenDefer =
+    [("SourceNode", true, ["if err != nil"]), ("DestinationNode", true, ["if err != nil"]),
+     ("DLQHandlerNode", true, ["if err != nil"])] := by decide
+
+/-- funnel.Worker.Open: the rollback that runs when a later task or the worker's DLQ fails to open
+releases the SOURCE through the worker's own `tearDownSource`, registered right after the first task (the
+source task, whose `Close` is a no-op) opened and before that task's `Close` is registered
+(fix f3d54b7; before it the source plugin stayed open and its connector guard set). -/
+theorem worker_open_rolls_back_source :
+    Conduit.Generated.OpenPhase.v2WorkerRollsBackSource = true ∧
+    Conduit.Generated.OpenPhase.v2WorkerOpenLoop =
+      ["err = task.Open(ctx)", "if err != nil [", "return", "]",
+       "if !sourceOpened [", "sourceOpened = true", "r.Append{tearDownSource}", "]",
+       "r.Append{task.Close}"] ∧
+    Conduit.Generated.OpenPhase.v2WorkerOpenCalls =
+      ["r.Execute", "task.Open", "tearDownSource", "task.Close", "DLQ.Open", "r.Skip"] := by decide
+
+/-- the open-phase shape the tree instantiates is the one `C11_failed_start_releases_all` needs. -/
+def openShape : Conduit.LifecycleOpen.Shape :=
+  { lo := Conduit.Generated.OpenPhase.v2RollbackLo
+    workerRollsBackSource := Conduit.Generated.OpenPhase.v2WorkerRollsBackSource }
+
+theorem open_shape_as_is : openShape = Conduit.LifecycleOpen.Shape.asIs := by decide
 
 end Conduit.Facts.C11
